@@ -99,13 +99,26 @@ impl Default for Limits {
 /// Everything about run `run_index` is a pure function of (seed, index, limits).
 pub fn plan_run(verif_seed: u64, run_index: u64, lim: &Limits) -> Plan {
     let mut rng = Rng::new(mix(verif_seed, run_index, 0xC09));
-    let case = gen_case(
-        &mut rng,
-        &GenLimits {
+    // a few runs are large: thresholds on the number of cells (block sizes,
+    // "small input" shortcuts) are invisible below them
+    let big = lim.max_n >= 200 && rng.chance(0.015);
+    let glim = if big {
+        let n = 260 + rng.below(1000) as usize;
+        GenLimits {
+            max_n: n,
+            min_n: n * 3 / 4,
+            ..Default::default()
+        }
+    } else {
+        GenLimits {
             max_n: lim.max_n,
             ..Default::default()
-        },
-    );
+        }
+    };
+    let mut case = gen_case(&mut rng, &glim);
+    if big {
+        case.family = format!("big:{}", case.family);
+    }
     // pools: small ones are cheap and already reach every ordering of few
     // leaves; big ones exercise deep splitting
     let sizes: Vec<usize> = POOL_SIZES.iter().copied().filter(|&k| k <= lim.max_pool).collect();
@@ -140,7 +153,7 @@ pub fn plan_run(verif_seed: u64, run_index: u64, lim: &Limits) -> Plan {
         cases.push(v);
     }
     let ncase = cases.len() as u64;
-    let n_ops = 2 + rng.below(5) as usize;
+    let n_ops = if big { 2 } else { 2 + rng.below(5) as usize };
     let mut history: Vec<HistOp> = vec![];
     // swarm: a run favours one split / sched mode but mixes in others
     let fav_split = *rng.pick(SPLITS);
@@ -640,6 +653,11 @@ pub struct Minimised {
 /// (cut to fit) and, because a structural change makes them line up badly,
 /// then with a few fresh decision streams.
 pub fn minimise(plan: &Plan, decisions: &[u32], marks: &[usize], v: &Violation, watchdog_s: u64, budget: u64) -> Minimised {
+    // wall-clock cap: a violation that does not reproduce deterministically (its
+    // source is outside the simulator, e.g. address-space layout) would otherwise
+    // burn the whole evaluation budget
+    let t_start = std::time::Instant::now();
+    let max_secs: f64 = std::env::var("VERIF_MIN_SECONDS").ok().and_then(|s| s.parse().ok()).unwrap_or(40.0);
     let mut best_plan = plan.clone();
     let mut best_dec = decisions.to_vec();
     let mut best_marks = marks.to_vec();
@@ -655,7 +673,8 @@ pub fn minimise(plan: &Plan, decisions: &[u32], marks: &[usize], v: &Violation, 
     }
     let try_cand = |p: &Plan, d: &[u32], fresh: u64, evals: &mut u64| -> Option<Found> {
         for attempt in 0..=fresh {
-            if *evals >= budget {
+            if *evals >= budget || t_start.elapsed().as_secs_f64() > max_secs {
+                *evals = budget;
                 return None;
             }
             *evals += 1;
